@@ -167,6 +167,38 @@ Theorem C06_default_roundtrip_partial : forall s cs snake, schema_ok snake s = t
 Proof. exact default_roundtrip. Qed.
 Print Assumptions C06_default_roundtrip_partial.
 
+(* object defaults that OMIT fields (the omitted ones nullable without default, or with an object-free default of a
+   proved shape): the instance equals the coerced schema default modulo absent == null (strip_nulls removes
+   null-valued object keys on both sides) — what the server sees.  Narrows the guard of the exact theorem. *)
+Theorem C06_default_roundtrip_modulo_null : forall s cs snake, schema_ok snake s = true ->
+  forall f lit n cv k,
+  i_default f = Some lit -> good_default_w s lit (i_type f) = true ->
+  coerced_default n s (i_type f) lit = Some cv -> n < k ->
+  exists b v jd, default_body (rhs_default (p_value (gen_field s cs snake f))) = Some b /\
+                 eval k (env_of s cs snake) b = Ok v /\ dump v = Some jd /\
+                 strip_nulls jd = strip_nulls (json_of_cvalue cv).
+Proof. exact default_roundtrip_modulo_null. Qed.
+Print Assumptions C06_default_roundtrip_modulo_null.
+
+(* the guard of accepts => validate, made checkable: if every schema default is of a proved, object-free shape
+   and a valid literal, defaults evaluate at every fuel; hence every coercible value BUILDS the instance *)
+Theorem C06_simple_defaults_ok : forall s cs snake, schema_ok snake s = true -> simple_defaults s = true ->
+  forall n, defaults_ok n (env_of s cs snake).
+Proof. exact simple_defaults_ok. Qed.
+Print Assumptions C06_simple_defaults_ok.
+
+Theorem C06_input_builds : forall s cs snake, schema_ok snake s = true -> simple_defaults s = true ->
+  forall n t j cv, coerce_input n s t j = Some cv ->
+  exists v, validate n (env_of s cs snake) (fst (parse_input_field_type s cs t true)) j = Ok v.
+Proof.
+  intros s cs snake OK SDf n t j cv C.
+  apply (C06_input_builds_partial s cs snake OK n (simple_defaults_ok s cs snake OK SDf n) t j cv C).
+Qed.
+Print Assumptions C06_input_builds.
+
+Example C06_simple_defaults_satisfiable : schema_ok true SV = true /\ simple_defaults SV = true.
+Proof. vm_compute. auto. Qed.
+
 (* what an object default means: model_validate applied to the literal read as a value (any literal) *)
 Theorem C06_object_default_denotes_literal : forall E ft lit m,
   exists v, eval m E (const_value_node ft lit true true) = Ok v /\ json_of_pyval v = Some (json_of_cvalue lit).
@@ -282,3 +314,12 @@ Example C06_object_default_ok :
                     ("sub", JObj [("k", JStr "A"); ("fooBar", JInt 4);
                                   ("tags", JArr [JArr [JStr "x"]; JNull])])]).
 Proof. vm_compute. reflexivity. Qed.
+
+(* the former F9a / F9b witnesses are inside the wider guard (they were outside good_default) *)
+Example C06_good_default_w_witnesses :
+  good_default_w SD (CObj [("k", CEnum "B")]) (TNamed "Sub") = true /\
+  good_default SD (CObj [("k", CEnum "B")]) (TNamed "Sub") = false /\
+  good_default_w SD (CList [CObj [("n", CInt 1)]]) (TList (TNonNull (TNamed "Sub"))) = true /\
+  strip_nulls (JObj [("k", JStr "B"); ("n", JInt 3); ("s", JNull)]) = JObj [("k", JStr "B"); ("n", JInt 3)].
+Proof. vm_compute. auto. Qed.
+
